@@ -92,7 +92,7 @@ struct mc_atomic {
   MC_INL T load(memory_order o = memory_order_seq_cst) const noexcept {
     mc_pre(MC_K_LOAD, &a_, sizeof(T), (int)o);
     T v = a_.load(o);
-    mc_post(MC_K_LOAD, &a_, sizeof(T));
+    mc_post_load(&a_, sizeof(T), &v);
     return v;
   }
   MC_INL void store(T v, memory_order o = memory_order_seq_cst) noexcept {
